@@ -14,7 +14,10 @@ Case kinds (field 'kind'):
   frame   END TO END: the urlencoded body ('pairs' encoded with urlencode, or raw 'text') travels through a
           fragmenting wsgi.input (props.common.FragStream, schedule 'sched') under Content-Length or chunked
           framing ('data' = the bytes on the wire), with max_memfile_size 'buf' / max_body_size 'maxb' around
-          the body size; Ombott.__call__ runs a handler that reads request.forms
+          the body size; Ombott.__call__ runs a handler that reads request.forms / request.params — eagerly
+          ('handler'='plain'), lazily from the generator it returns while the response streams ('gen'), or in a
+          later step of that generator ('gen_late') — optionally after a before_request hook ('hook') or the handler
+          itself ('touch') read request.body fully or partly without parsing the form
   modes   parse_qsl's other two modes: append=acc.append on a non-empty list and setitem=d.__setitem__ on a
           non-empty dict (also both keywords at once: setitem wins)
   reuse   several requests in ONE process, many of them over the SAME raw query string / body (repeated keys), through
@@ -175,6 +178,14 @@ def frame_corpus():
         out.append(dict(frame(rng, b'a=1&b=2', 16, None, True, [0, 2]), cl=cl))     # chunked + Content-Length (F35)
     for ct in CT_URLENC:
         out.append(dict(frame(rng, b'a=1&a=%2B', 16, None, False, [1]), ctype=ct))
+    # the form is first looked at while the response streams, after a hook / the handler buffered the raw body
+    # (seeded edit: _handle closing the buffered body in its finally)
+    for handler in ('gen', 'gen_late', 'plain'):
+        for hook, touch in (('full', None), ('partial', None), (None, 'full'), (None, None), ('full', 'partial')):
+            for chunked in (False, True):
+                for buf in (64, 6):
+                    out.append(dict(frame(rng, b'a=1&a=%2B&b=', buf, None, chunked, [1, 0]), handler=handler, hook=hook,
+                                    touch=touch, view='params' if chunked else 'forms'))
     return out
 
 
@@ -547,6 +558,9 @@ def gen(rng, n):
                 c['cl'] = rng.choice([0, 1, max(n - 1, 0), n, n + 1, 10 * n + 5])   # both framing headers
             if rng.random() < 0.3:
                 c['ctype'] = rng.choice(CT_URLENC)
+            if rng.random() < 0.5:
+                c.update(handler=rng.choice(['gen', 'gen', 'gen_late', 'plain']), view=rng.choice(['forms', 'params']),
+                         hook=rng.choice([None, 'full', 'full', 'partial']), touch=rng.choice([None, None, 'full', 'partial']))
             yield c
         elif r < 0.2:
             order = list(rng.choice(ORDERS)) if rng.random() < 0.5 else \
@@ -840,10 +854,31 @@ def run_frame(case):
     from ombott import Ombott
     app = Ombott(dict(max_memfile_size=case['buf'], max_body_size=case['maxb']))
     seen = {}
+    mode, view = case.get('handler', 'plain'), case.get('view', 'forms')
+
+    def raw_read(how):
+        if how == 'full':
+            app.request.body.read()
+        elif how == 'partial':
+            app.request.body.read(3)
+
+    def parse():
+        seen['items'] = dump_dict(getattr(app.request, view))
 
     def handler():
-        seen['items'] = dump_dict(app.request.forms)
-        return 'parsed'
+        raw_read(case.get('touch'))
+        if mode == 'plain':
+            parse()
+            return 'parsed'
+
+        def stream():
+            if mode == 'gen_late':
+                yield 'head '                    # the response has started before the form is looked at
+            parse()
+            yield 'parsed'
+        return stream()
+    if case.get('hook'):
+        app.add_hook('before_request', lambda: raw_read(case['hook']))
     app.route('/b', method='POST', callback=handler)
     st = FragStream(case['data'], case['sched'])
     env = environ('POST', '/b', **{'wsgi.input': st})
@@ -860,8 +895,15 @@ def run_frame(case):
 
     def start_response(status, headers, exc_info=None):
         out['status'] = status
+    from ombott import HTTPError
     try:
         b''.join(app(env, start_response))
+    except HTTPError as e:
+        # a refusal (413 / 400) that happens after the response has started cannot become an error page any
+        # more: WSGI lets it reach the server.  Only legitimate when the form was looked at late.
+        if mode != 'gen_late' or 'items' in seen:
+            return dict(status='escaped_HTTPError')
+        return dict(status='http_%d' % e.status_code, pos=st.pos)
     except Exception as e:
         return dict(status='escaped_%s' % type(e).__name__)
     code = int(out['status'].split()[0])
@@ -1549,6 +1591,8 @@ def classify(case, obs):
         n = len(case['text'])
         hdr = ('no-cl' if case['cl'] < 0 and not case['chunked'] else 'chunked+cl' if case['chunked'] and case['cl'] >= 0
                else 'chunked' if case['chunked'] else 'cl')
+        if case.get('handler', 'plain') != 'plain' or case.get('hook') or case.get('touch'):
+            hdr += '/%s%s%s' % (case.get('handler', 'plain'), '+hook' if case.get('hook') else '', '+touch' if case.get('touch') else '')
         return 'frame/%s%s/%s/%s/%s' % (hdr, '/ctype' if 'ctype' in case else '', 'pairs' if case.get('pairs') is not None else 'raw',
                                         'n<=buf' if n <= case['buf'] else 'n>buf', obs.get('status'))
         return 'frame/%s/%s/%s/%s' % ('chunked' if case['chunked'] else 'cl', 'pairs' if case.get('pairs') is not None else 'raw',
@@ -1688,6 +1732,8 @@ API_SURFACE = [
     ('BaseRequest._forms_factory override', 'excluded: customisation point; the property is about FormsDict'),
     ('config max_memfile_size / max_body_size (Ombott(dict), defaults)', 'covered by frame (constructor dict) and seq/rt '
                                                                          '(defaults); setup() excluded: C13'),
+    ('Ombott.__call__ with generator handlers / before_request hooks (lazy first read of forms/params while the response '
+     'streams, raw request.body read before)', 'covered by frame handler=gen/gen_late, hook, touch'),
     ('application object reused across requests', 'covered by reuse via=app (one Ombott, several __call__)'),
     ('several Request objects over the same raw text, returned containers mutated in place in between',
      'covered by reuse via=request/app with mut (baseline decoded before any mutation in the process)'),
